@@ -475,6 +475,122 @@ def oracle_shared_parameters(res, n=4):
                                  "temperature does not propagate to 1/T of that bath"})
 
 
+class _Transient(Exception):
+    """raised once by the wrapped spectral density"""
+
+
+def oracle_fault_resume(res, n=6, fault_at=(1, 150, 600, 1000, 1400)):
+    """the user's j_function raises ONCE at its k-th evaluation after the backend was initialised
+    (inside GibbsTempo.compute); compute() is called again and must end in the state of an
+    undisturbed run, which is the closed form of the commuting model"""
+    import oqupy
+    alpha, wc, T = 0.4, 3.0, 0.6
+    H = np.diag([0.0, 0.9]).astype(complex)
+    o = np.array([0.5, -0.8])
+    lam = alpha * wc                                  # int_0^inf alpha w exp(-w/wc) / w dw
+    en = np.diag(H).real - lam * o ** 2
+    w_ = np.exp(-(en - en.min()) / T)
+    want = np.diag(w_ / w_.sum())
+
+    def build(state):
+        def jf(w):
+            if state["armed"]:
+                state["count"] += 1
+                if state["count"] == state["k"] and not state["fired"]:
+                    state["fired"] = True
+                    raise _Transient("transient failure of the spectral density")
+            return alpha * w
+        corr = oqupy.CustomSD(jf, cutoff=wc, cutoff_type="exponential", temperature=T)
+        g = oqupy.GibbsTempo(oqupy.System(H), oqupy.Bath(np.diag(o).astype(complex), corr),
+                             oqupy.GibbsParameters(n, 1e-12))
+        be = g._backend_instance
+        orig = be.initialise
+
+        def initialise(*a, **kw):
+            r = orig(*a, **kw)
+            state["armed"] = state["k"] is not None
+            return r
+        be.initialise = initialise
+        return g
+
+    ref = build({"armed": False, "count": 0, "k": None, "fired": False})
+    ref.compute(progress_type="silent")
+    ref_state = np.array(ref.get_state())
+    if np.abs(ref_state - want).max() > 1e-7:
+        res.fail("fault-resume:undisturbed-run-is-not-the-closed-form",
+                 {"api": "GibbsTempo", "n_steps": n, "error": float(np.abs(ref_state - want).max())})
+    for k in fault_at:
+        st = {"armed": False, "count": 0, "k": k, "fired": False}
+        g = build(st)
+        raised = 0
+        for attempt in range(3):
+            try:
+                dyn = g.compute(progress_type="silent")
+                break
+            except _Transient:
+                raised += 1
+        else:
+            continue
+        if not st["fired"]:
+            continue                      # fewer evaluations than k: nothing was disturbed
+        got = np.array(g.get_state())
+        err = float(np.abs(got - ref_state).max())
+        if err > 1e-10 or len(dyn.times) != n + 1 or abs(float(dyn.times[-1]) - 1.0 / T) > 1e-12 / T:
+            res.fail("fault-resume:j_function raises once at evaluation %d after initialisation" % k,
+                     {"api": "GibbsTempo", "n_steps": n, "temperature": T, "alpha": alpha, "cutoff": wc,
+                      "hamiltonian_diagonal": np.diag(H).real.tolist(), "coupling_diagonal": o.tolist(),
+                      "fault_at_evaluation": k, "exceptions_seen": raised,
+                      "backend_step_after_resume": g._backend_instance.step,
+                      "states_recorded": len(dyn.times), "last_time_label": float(dyn.times[-1]),
+                      "expected_populations": np.diag(want).real.tolist(),
+                      "undisturbed_populations": np.diag(ref_state).real.tolist(),
+                      "got_populations": np.diag(got).real.tolist(), "error": err,
+                      "how": "after a transient exception inside compute() a second compute() does "
+                             "not end in the state of an undisturbed run"})
+
+
+def oracle_temperature_scan(res, n=4):
+    """one correlations object re-used after `corr.temperature = T2` vs fresh objects"""
+    import oqupy
+    H = np.array([[0.3, 0.2 - 0.4j], [0.2 + 0.4j, -0.3]])
+    o = [0.5, -0.5]
+
+    def run(corr):
+        g = oqupy.GibbsTempo(oqupy.System(H), oqupy.Bath(np.diag(o).astype(complex), corr),
+                             oqupy.GibbsParameters(n, 1e-12))
+        g.compute(progress_type="silent")
+        return np.array(g.get_state())
+
+    def fresh(kind, T):
+        if kind == "PowerLawSD":
+            return oqupy.PowerLawSD(alpha=0.3, zeta=1.0, cutoff=3.0, cutoff_type="exponential",
+                                    temperature=T)
+        return oqupy.CustomSD(lambda w: 0.6 * w, cutoff=3.0, cutoff_type="exponential", temperature=T)
+
+    for kind in ("PowerLawSD", "CustomSD"):
+        for temps in ((1.6, 0.7, 0.3), (0.3, 1.6)):
+            corr = fresh(kind, temps[0])
+            for k, T in enumerate(temps):
+                corr.temperature = T
+                want = run(fresh(kind, T))
+                try:
+                    got, exc = run(corr), None
+                    err = float(np.abs(got - want).max())
+                except Exception as e:                # the fresh object works, the re-used one raises
+                    exc, err = "%s: %s" % (type(e).__name__, str(e)[:200]), float("inf")
+                if err > 1e-10:
+                    res.fail("temperature-scan:%s temperatures=%s run=%d"
+                             % (kind, ",".join(map(str, temps)), k),
+                             {"api": "GibbsTempo", "correlations": kind, "n_steps": n,
+                              "temperatures_in_order": list(temps), "run_index": k, "temperature": T,
+                              "error_vs_fresh_correlations": (err if exc is None else None),
+                              "exception_with_reused_object": exc,
+                              "hamiltonian": [[[z.real, z.imag] for z in r] for r in H.tolist()],
+                              "coupling_diagonal": o,
+                              "how": "one correlations object re-used after `corr.temperature = T` "
+                                     "gives a Gibbs state different from a fresh object at T"})
+
+
 def oracle_long_chain(res, steps=(259, 300)):
     """more imaginary-time slices than any memory-length constant: still the closed form"""
     oracle_commuting(res, fixed_commuting_case(), steps=(4,) + tuple(steps),
@@ -515,6 +631,10 @@ def replay_case(res, payload):
     elif key.startswith("repeat-compute") or key.startswith("general") or key.startswith("final-label"):
         desc = fi["case"]
         oracle_general(res, case_from_desc(desc))
+    elif key.startswith("fault-resume"):
+        oracle_fault_resume(res, fi.get("n_steps", 6), (fi.get("fault_at_evaluation", 1),))
+    elif key.startswith("temperature-scan"):
+        oracle_temperature_scan(res, fi.get("n_steps", 4))
     elif key.startswith("shared-parameters"):
         oracle_shared_parameters(res, fi.get("n_steps", 4))
     elif key.startswith("commuting") and "long chain" in key:
@@ -560,8 +680,13 @@ def search(res):
         oracle_commuting(res, gen_case(rng, "quick", {"d": d, "hkind": "diagonal", "coupling": "generic",
                                                      "alpha": rng.choice([0.1, 0.5, 1.0])}))
     # (2c) one parameter object for several temperatures; chains longer than any memory constant
-    oracle_shared_parameters(res)
-    oracle_long_chain(res)
+    for oracle in (oracle_shared_parameters, oracle_temperature_scan, oracle_fault_resume,
+                   oracle_long_chain):
+        try:
+            oracle(res)
+        except Exception:
+            import traceback
+            res.notes.append("search: %s raised: %s" % (oracle.__name__, traceback.format_exc()[-800:]))
     # (3) general models: normalised, Hermitian, positive; repeated compute()
     for i in range(5):
         oracle_general(res, gen_case(rng, "quick", {"hkind": "complex", "coupling": "generic"}))
